@@ -104,21 +104,21 @@ def canon_impl(o, basename=None):
     return dict(status="ok", kind=o["kind"], recs=recs, odd=odd)
 
 
-def diff(model, impl):
+def diff(model, impl, who="model"):
     """None if outcome class and every field of every record agree"""
     if model["status"] != impl["status"]:
-        return "outcome: model %s %s, implementation %s %s" % (model["status"], model.get("code") or model.get("panic") or "",
-                                                               impl["status"], impl.get("error") or impl.get("panic") or "")
+        return "outcome: %s %s %s, implementation %s %s" % (who, model["status"], model.get("code") or model.get("panic") or "",
+                                                            impl["status"], impl.get("error") or impl.get("panic") or "")
     if model["status"] != "ok":
         return None
     if model["kind"] != impl["kind"]:
-        return "content: model %s, implementation %s" % (model["kind"], impl["kind"])
+        return "content: %s %s, implementation %s" % (who, model["kind"], impl["kind"])
     if len(model["recs"]) != len(impl["recs"]):
-        return "%d records in the model, %d in the implementation" % (len(model["recs"]), len(impl["recs"]))
+        return "%d records in the %s, %d in the implementation" % (len(model["recs"]), who, len(impl["recs"]))
     for i, (a, b) in enumerate(zip(model["recs"], impl["recs"])):
         for k in a:
             if a[k] != b[k]:
-                return "record %d field %s: model %r, implementation %r" % (i, k, a[k], b[k])
+                return "record %d field %s: %s %r, implementation %r" % (i, k, who, a[k], b[k])
     if impl.get("odd"):
         return impl["odd"][0]
     return None
